@@ -408,17 +408,18 @@ type vField struct {
 	name     string
 	number   int
 	// optional attributes (zero values keep the C03-A behaviour)
-	full         string
-	nested       string
-	extendee     string
-	jsonName     string
-	hasJSONLoc   bool
-	jsType       descriptorpb.FieldOptions_JSType
-	hasJSTypeLoc bool
-	oneof        *vbOneof
-	label        descriptorpb.FieldDescriptorProto_Label
-	file         *vFile
-	parent       *vMsg
+	full           string
+	nested         string
+	extendee       string
+	jsonName       string
+	hasJSONLoc     bool
+	jsType         descriptorpb.FieldOptions_JSType
+	hasJSTypeLoc   bool
+	oneof          *vbOneof
+	proto3Optional bool
+	label          descriptorpb.FieldDescriptorProto_Label
+	file           *vFile
+	parent         *vMsg
 }
 
 func (f *vField) AsDescriptor() (protoreflect.FieldDescriptor, error) { return f.fd, nil }
@@ -471,6 +472,9 @@ func (f *vField) Oneof() bufprotosource.Oneof {
 	return f.oneof
 }
 func (f *vField) Label() descriptorpb.FieldDescriptorProto_Label { return f.label }
+func (f *vField) Proto3Optional() bool                           { return f.proto3Optional }
+func (f *vField) Deprecated() bool                               { return false }
+func (f *vField) Default() string                                { return "" }
 
 // vbsRW counts the annotations a rule handler adds through the real bufcheckserverutil response writer.
 type vbsRW struct {
